@@ -278,7 +278,9 @@ func writeComputedFieldExpression(w *formatting.IndentedWriter, expression dsl.E
 			w.WriteString(" ")
 
 			requiresParentheses = false
-			if r, ok := t.Right.(*dsl.BinaryExpression); ok && r.Operator.Precedence() < t.Operator.Precedence() {
+			// the operators emitted here are left-associative: a right operand of equal
+			// precedence keeps its parentheses (a - (b - c))
+			if r, ok := t.Right.(*dsl.BinaryExpression); ok && r.Operator.Precedence() <= t.Operator.Precedence() {
 				requiresParentheses = true
 			}
 
